@@ -441,6 +441,34 @@ def run_case(case, salt=0, make=make_fakes):
     pls = m["playlists"].PlaylistsController(backends=backends, core=None)
     mix = m["mixer"].MixerController(mixer=mixer_fake)
     name = op["name"]
+    events = []
+    import mopidy.listener as _listener
+
+    real_send = _listener.send
+
+    def recording_send(cls, event, **kwargs):
+        # the real mopidy.listener.send still runs; every core event is recorded first
+        events.append([event, {k: canon_event_value(v) for k, v in sorted(kwargs.items())}])
+        return real_send(cls, event, **kwargs)
+
+    _listener.send = recording_send
+    try:
+        return _run_call(m, case, op, name, lib, pls, mix, backends, fakes, log, tables, settle, returned,
+                         returned_lists, events)
+    finally:
+        _listener.send = real_send
+
+
+def canon_event_value(v):
+    if isinstance(v, str):
+        return ["str", v]
+    if isinstance(v, bool) or v is None:
+        return ["scalar", v]
+    c = canon_obj(v)
+    return ["wrong", type(v).__name__] if c == "junk" or c[0] == "uristr" else ["val", c[0], c[1]]
+
+
+def _run_call(m, case, op, name, lib, pls, mix, backends, fakes, log, tables, settle, returned, returned_lists, events):
     try:
         if name == "construct":
             value = None
@@ -523,12 +551,13 @@ def run_case(case, salt=0, make=make_fakes):
         if isinstance(e, ValueError) and not isinstance(e, m["exceptions"].ValidationError) and str(e) == name:
             raise
         settle()
-        return {"outcome": ["raise", exc_kind(e)], "log": canon_log(log), "tables": tables, "stage": "call"}
+        return {"outcome": ["raise", exc_kind(e)], "log": canon_log(log), "tables": tables, "stage": "call",
+                "events": events}
     settle()
     for lst in returned_lists:
         returned.extend(lst)
     return {"outcome": ["ok", canon_result(op, value, returned)], "log": canon_log(log), "tables": tables,
-            "stage": "call"}
+            "stage": "call", "events": events}
 
 
 def canon_log(log):
